@@ -159,6 +159,13 @@ def observe(case, props, queries=(), lookups=(), direct=()) -> dict:
         r2, _ = _q(bpm.timestamp_at_tick, t)
         rec["qs"].append({"t": int(t), "raised": r1})
         rec["qs"].append({"t": int(t), "raised": r2})
+        # ... and with every starting hint: "no query governed by a tempo of zero ever returns a time" is said of the hinted
+        # form of the public query too (a hint beyond the governing event is refused with ValueError anyway, C11)
+        nb_ = len(bpm.events)
+        for h in sorted({0, 1, nb_ - 2, nb_ - 1, nb_}):
+            if h >= 0:
+                r6, _ = _q(bpm.timestamp_at_tick, t, start_iteration_index=h)
+                rec["qs"].append({"t": int(t), "raised": r6})
         if t < 0:
             # the rate query with a negative tick bound is a query for a negative tick too
             for inst, dd in chart.instrument_tracks.items():
@@ -295,7 +302,12 @@ def random_metadata_lines(r):
     pool = [f"Offset = {r.choice([0, 1, 3, 100, 10**6])}", f"PreviewStart = {r.choice([0, 5, 10**5])}", f"PreviewEnd = {r.choice([0, 9, 10**6])}",
             f"Difficulty = {r.choice([0, 3, 6])}", f"Player2 = {r.choice(['bass', 'rhythm'])}", 'Name = "n"', 'Genre = "rock"', 'MediaType = "cd"',
             'MusicStream = "song.ogg"', 'Year = ", 2018"', 'Charter = "c"']
-    return r.sample(pool, r.randrange(1, len(pool) + 1))
+    out = r.sample(pool, r.randrange(1, len(pool) + 1))
+    if r.random() < 0.2:
+        # a SECOND Resolution line further down (a converter that appended its own header block): the chart's resolution is
+        # the first one (DESIGN 11.8, the reading C15 already uses); every time in the chart is scaled by it
+        out.insert(r.randrange(0, len(out) + 1), f"Resolution = {r.choice([1, 96, 192, 480, 960, 1000, 7])}")
+    return out
 
 
 def marathon_map(r):
